@@ -27,6 +27,7 @@ type Program struct {
 }
 
 type SpecDB struct {
+	Effects   []EffectDecl
 	Files     map[string]*SpecFile // by package path
 	Contracts map[string]*FuncContract
 	SpecFuncs map[string]*SpecFunc // by name (global namespace)
@@ -143,6 +144,7 @@ func loadSpecs(pkgs []*packages.Package) (*SpecDB, error) {
 		for _, c := range sf.Funcs {
 			db.Contracts[c.Key()] = c
 		}
+		db.Effects = append(db.Effects, sf.Effects...)
 		for _, s := range sf.Specs {
 			if _, dup := db.SpecFuncs[s.Name]; dup {
 				return nil, fmt.Errorf("duplicate spec function %s", s.Name)
